@@ -11,7 +11,10 @@ use std::collections::HashMap;
 #[derive(Serialize, Deserialize)]
 pub struct RewriteData {
   pub fixed: String,
-  // maybe we should have fixed range
+  /// the range replaced by the fix when it differs from the diagnostic's range,
+  /// e.g. a fixer with `expandStart`/`expandEnd`
+  #[serde(default, skip_serializing_if = "Option::is_none")]
+  pub range: Option<Range>,
 }
 
 impl RewriteData {
@@ -24,9 +27,40 @@ impl RewriteData {
     rule: &RuleConfig<L>,
   ) -> Option<Self> {
     let fixer = rule.matcher.fixer.as_ref()?;
-    let edit = node_match.replace_by(fixer);
+    // use the same edit as the CLI: the fixer decides the replaced range
+    let edit = node_match.make_edit(&rule.matcher, fixer);
+    let replaced = edit.position..edit.position + edit.deleted_length;
     let rewrite = String::from_utf8(edit.inserted_text).ok()?;
-    Some(Self { fixed: rewrite })
+    let range = if replaced == node_match.range() {
+      None
+    } else {
+      let src = node_match.root().get_text();
+      Some(Range {
+        start: offset_to_position(src, replaced.start),
+        end: offset_to_position(src, replaced.end),
+      })
+    };
+    Some(Self {
+      fixed: rewrite,
+      range,
+    })
+  }
+
+  /// the range in the document that the fix replaces
+  pub fn replaced_range(&self, diagnostic_range: Range) -> Range {
+    self.range.unwrap_or(diagnostic_range)
+  }
+}
+
+/// line and character column of a byte offset, in the units of `convert_node_to_range`
+fn offset_to_position(src: &str, offset: usize) -> Position {
+  let before = &src[..offset];
+  let line = before.bytes().filter(|b| *b == b'\n').count();
+  let line_start = before.rfind('\n').map(|i| i + 1).unwrap_or(0);
+  let character = before[line_start..].chars().count();
+  Position {
+    line: line as u32,
+    character: character as u32,
   }
 }
 
@@ -36,7 +70,8 @@ pub fn diagnostic_to_code_action(
 ) -> Option<CodeAction> {
   let rewrite_data = RewriteData::from_value(diagnostic.data?)?;
   let mut changes = HashMap::new();
-  let text_edit = TextEdit::new(diagnostic.range, rewrite_data.fixed);
+  let range = rewrite_data.replaced_range(diagnostic.range);
+  let text_edit = TextEdit::new(range, rewrite_data.fixed);
   changes.insert(text_doc.uri.clone(), vec![text_edit]);
 
   let edit = WorkspaceEdit::new(changes);
